@@ -719,3 +719,85 @@ m('C04', 'restriction: coarse grid with a shifted origin', SOLVER,
 m('C01', 'solve: reference norm from the starting field', SOLVER,
   "    var.l2_refe = sp.linalg.norm(sfield.field, check_finite=False)",
   "    var.l2_refe = sp.linalg.norm(sfield.field, check_finite=False) + 1.0", 'C01.R2')
+
+# ------------------------------------------------ rules added after seeded round 2
+m('C18', 'parser: config path only consumed without --path (defect F7)', PARSER,
+  "    config_path = all_files.pop('path', '.')\n    path = term.pop('path')\n    if path is None:\n        path = config_path\n",
+  "    path = term.pop('path')\n    if path is None:\n        path = all_files.pop('path', '.')\n",
+  'C18.Q4.consumed')
+m('C18', 'parser: config file name wins over the terminal', PARSER,
+  "        if fname is None:\n            fname = config_or_default\n",
+  "        if config_or_default:\n            fname = config_or_default\n", 'C18.Q4')
+m('C05', 'multigrid: cycmax not refreshed when the direction advances (defect F8)',
+  SOLVER,
+  "                cycmax = 1 if level == var.clevel[var.sc_dir] else var.cycmax\n", "",
+  'C05.H8')
+n('C05', 'multigrid: cycmax refreshed through an if/else', SOLVER,
+  "                cycmax = 1 if level == var.clevel[var.sc_dir] else var.cycmax\n",
+  "                if level == var.clevel[var.sc_dir]:\n                    cycmax = 1\n                else:\n                    cycmax = var.cycmax\n")
+m('C20', 'Fourier.signal setter without re-check (defect F9)', TIME,
+  "        self._signal = signal\n        self._check_time()\n", "        self._signal = signal\n",
+  'C20.F5')
+m('C20', 'Fourier.fourier_arguments without re-check', TIME,
+  "        self._ftarg = ftarg\n        self._check_time()\n\n    def interpolate",
+  "        self._ftarg = ftarg\n\n    def interpolate", 'C20.F5')
+m('C13', 'noise_floor getter keyed on the stored array', SURV,
+  "        if isinstance(self.data.noise_floor, str):",
+  "        if '_noise_floor' in self.data.keys():", 'C13.N3.flag')
+n('C13', 'noise_floor getter reads the attrs dict', SURV,
+  "        if isinstance(self.data.noise_floor, str):",
+  "        if isinstance(self.data.attrs['noise_floor'], str):")
+m('C19', 'extract_1d: averaging branch on the requested method', MODELS,
+  "            if not midpoint:\n                if not self.map.name.startswith('L'):",
+  "            if method != 'midpoint':\n                if not self.map.name.startswith('L'):",
+  'C19.L1.flag')
+m('C19', '_compute_1d: tasks from sorted sources', SIMS,
+  "            list(map(collect_empymod_inputs, self.survey.sources.keys())),",
+  "            list(map(collect_empymod_inputs, sorted(self.survey.sources.keys()))),",
+  'C19.L2.order')
+m('C12', 'jvec: jvec variable bound to the observed data', SIMS,
+  "            self.data['jvec'] = self.data.observed.copy(\n                    data=np.full(self.survey.shape, np.nan+1j*np.nan))",
+  "            self.data['jvec'] = self.data.observed", 'C12.OW7')
+m('C12', "to_dict: computed flag also for 'plain'", SIMS,
+  "        if what in ['computed', 'results', 'all']:\n            out['gradient'] = self._gradient\n            out['misfit'] = self._misfit\n            out['computed'] = self._computed",
+  "        if what in ['computed', 'results', 'all']:\n            out['gradient'] = self._gradient\n            out['misfit'] = self._misfit\n        out['computed'] = self._computed",
+  'C12.OW6.serial')
+m('C10', '_point_vector: cell index without the clamp', FIELDS,
+  "        ix = max(0, np.where(coo[0] < np.r_[xx, np.inf])[0][0]-1)",
+  "        ix = np.where(coo[0] < np.r_[xx, np.inf])[0][0]-1", 'C10.PV.bounds')
+n('C10', '_point_vector: clamp through np.clip', FIELDS,
+  "        ix = max(0, np.where(coo[0] < np.r_[xx, np.inf])[0][0]-1)",
+  "        ix = np.clip(np.where(coo[0] < np.r_[xx, np.inf])[0][0]-1, 0, None)")
+m('C10', '_dipole_vector: electrodes sorted before segmentation', FIELDS,
+  "        points = pts\n", "        pts = pts[np.argsort(pts[:, 0]), :]\n        points = pts\n",
+  'C10.DV.segments')
+m('C11', '_bcompute: gradient tolerance set after the tasks were built', SIMS,
+  "            data['solver_opts']['tol'] = self.tol_gradient\n            return self._data_or_file('bfield', source, freq, data)\n\n        # Compute fields in parallel.\n        out = _mp.process_map(\n            _mp.solve,\n            list(map(collect_bfield_inputs, self._srcfreq)),",
+  "            return self._data_or_file('bfield', source, freq, data)\n\n        inputs = list(map(collect_bfield_inputs, self._srcfreq))\n        self.solver_opts['tol'] = self.tol_gradient\n        out = _mp.process_map(\n            _mp.solve,\n            inputs,",
+  'C11.P2')
+n('C11', '_bcompute: task list bound to a local first', SIMS,
+  "        out = _mp.process_map(\n            _mp.solve,\n            list(map(collect_bfield_inputs, self._srcfreq)),",
+  "        inputs = list(map(collect_bfield_inputs, self._srcfreq))\n        out = _mp.process_map(\n            _mp.solve,\n            inputs,")
+m('C15', 'interpolate_to_grid: log forced after the caller options', MODELS,
+  "            'log': not self.map.name.startswith('L'),\n            **({} if interpolate_opts is None else interpolate_opts),\n",
+  "            **({} if interpolate_opts is None else interpolate_opts),\n            'log': not self.map.name.startswith('L'),\n",
+  'C15.VA1.options')
+m('C09', 'get_receiver: components below 1e-3 skipped', FIELDS,
+  "        if np.any(abs(factors[i]) > 1e-10):", "        if np.any(abs(factors[i]) > 1e-3):",
+  'C09.RC.factors')
+n('C09', 'get_receiver: skip threshold 1e-12', FIELDS,
+  "        if np.any(abs(factors[i]) > 1e-10):", "        if np.any(abs(factors[i]) > 1e-12):")
+m('C14', 'MapLgResistivity: conductivity remembered on the map', MAPS,
+  "        return 10**-mapped\n\n    def derivative_chain(self, gradient, mapped):\n        gradient *= -self.backward(mapped)*np.log(10)",
+  "        self._c = 10**-mapped\n        return self._c\n\n    def derivative_chain(self, gradient, mapped):\n        gradient *= -self._c*np.log(10)",
+  'C14.M1.pure')
+m('C02', 'VolumeModel: displacement term accumulated over directions', MODELS,
+  "                    smu = sfield.sval*sp.constants.epsilon_0*model.epsilon_r\n                    eta = -sfield.smu0*vol*(cond + smu)",
+  "                    smu += cond\n                    eta = -sfield.smu0*vol*smu", 'C02.O4')
+m('C17', 'JSON reader: one-element complex arrays become scalars', IO,
+  "            key = key.replace('__complex', '')\n",
+  "            key = key.replace('__complex', '')\n            if value.size == 1:\n                value = value.item()\n",
+  'C17.K3')
+m('C08', 'gradient: volumes reshaped in C order', SIMS,
+  "volumes=cell_volumes.reshape(shape, order='F'),", "volumes=cell_volumes.reshape(shape),",
+  'C08.V4.scatter')
